@@ -79,7 +79,127 @@ def detect_fixes():
     s = src(lookups.Env.reload.__func__)
     i, j = s.find('cls.load_environ()'), s.find('cls.var_names')
     res['F34'] = None if j < 0 else (True if 0 <= i < j else False)
+    res['env_inplace'] = env_protocol_shape()
     return res
+
+
+MUTATORS = {'clear', 'update', 'pop', 'popitem', 'append', 'extend', 'insert', 'remove', 'discard', 'add',
+            'sort', 'reverse', 'difference_update', 'intersection_update', 'symmetric_difference_update'}
+SHARED_ATTRS = {'var_names', 'cleaned_to_env'}
+ACCESSORS = {'json_field_to_dataclass_field', 'dataclass_field_to_json_path', 'dataclass_field_to_json_field',
+             'dataclass_field_to_skip_if', 'field_to_env_var', 'v1_dataclass_field_to_alias',
+             'dataclass_field_to_default', 'dataclass_field_to_load_parser', 'dataclass_to_dumper'}
+
+
+def env_protocol_shape():
+    """How does Env.load_environ install the copy of os.environ?  False: it only ever REBINDS the module
+    global `environ` to a new object; True: it (also) mutates the dict in place; None: not recognised."""
+    import ast, inspect, textwrap
+    from dataclass_wizard.environ import lookups
+    try:
+        tree = ast.parse(textwrap.dedent(inspect.getsource(lookups.Env.load_environ.__func__)))
+    except Exception:
+        return None
+    rebinds, mutates = 0, 0
+    for n in ast.walk(tree):
+        if isinstance(n, ast.Assign) and any(isinstance(t, ast.Name) and t.id == 'environ' for t in n.targets):
+            rebinds += 1
+        if isinstance(n, (ast.Assign, ast.AugAssign, ast.Delete)):
+            tg = n.targets if not isinstance(n, ast.AugAssign) else [n.target]
+            if any(isinstance(t, ast.Subscript) and isinstance(t.value, ast.Name) and t.value.id == 'environ' for t in tg):
+                mutates += 1
+            if isinstance(n, ast.AugAssign) and isinstance(n.target, ast.Name) and n.target.id == 'environ':
+                mutates += 1
+        if isinstance(n, ast.Call) and isinstance(n.func, ast.Attribute) and isinstance(n.func.value, ast.Name) \
+                and n.func.value.id == 'environ' and n.func.attr in MUTATORS | {'setdefault', '__setitem__', '__delitem__'}:
+            mutates += 1
+    if mutates:
+        return True
+    return False if rebinds else None
+
+
+def inplace_sites():
+    """Static scan (hook completeness): statements that mutate SHARED state in place with a bulk / non-monotone
+    operation (clear, update, pop, append, add, del, ...) and are not directly preceded by a yield point of
+    hook H2.  Shared = module-level UPPER_CASE tables, the global `environ`, Env.var_names / cleaned_to_env,
+    and local names bound to one of those (or to the result of a table accessor) in the same function."""
+    import ast, importlib
+    mods = ['dataclass_wizard.environ.lookups', 'dataclass_wizard.class_helper', 'dataclass_wizard.loaders',
+            'dataclass_wizard.dumpers', 'dataclass_wizard.loader_selection', 'dataclass_wizard.v1.loaders']
+    out = []
+
+    def text(e):
+        try:
+            return ast.unparse(e)
+        except Exception:
+            return '?'
+
+    def is_yield(st):
+        if not (isinstance(st, ast.Expr) and isinstance(st.value, ast.Call)):
+            return False
+        f = st.value.func
+        return (isinstance(f, ast.Name) and f.id == '_yp') or (isinstance(f, ast.Attribute) and f.attr == 'yp')
+
+    for mn in mods:
+        try:
+            m = importlib.import_module(mn)
+            tree = ast.parse(open(m.__file__, encoding='utf-8').read())
+        except Exception as e:
+            out.append({'file': mn, 'error': '%s: %s' % (type(e).__name__, e)})
+            continue
+        fname = os.path.basename(m.__file__)
+        if mn.endswith('v1.loaders'):
+            fname = 'v1/' + fname
+        globs = {t.id for st in tree.body if isinstance(st, ast.Assign) for t in st.targets
+                 if isinstance(t, ast.Name) and t.id.isupper()}
+        globs |= {a.asname or a.name for st in tree.body if isinstance(st, ast.ImportFrom) for a in st.names
+                  if (a.asname or a.name).isupper()}
+        if mn.endswith('lookups'):
+            globs.add('environ')
+
+        for fn in [n for n in ast.walk(tree) if isinstance(n, (ast.FunctionDef, ast.AsyncFunctionDef))]:
+            shared = set()
+
+            def shared_expr(e):
+                if isinstance(e, ast.Name):
+                    return e.id in globs or e.id in shared
+                if isinstance(e, ast.Attribute):
+                    return e.attr in SHARED_ATTRS or shared_expr(e.value) and False
+                if isinstance(e, ast.Subscript):
+                    return shared_expr(e.value)
+                if isinstance(e, ast.Call):
+                    f = e.func
+                    return isinstance(f, ast.Name) and f.id in ACCESSORS
+                return False
+            for n in ast.walk(fn):   # local aliases of shared objects
+                if isinstance(n, ast.Assign) and (shared_expr(n.value) or
+                                                  any(isinstance(t, ast.Subscript) and shared_expr(t.value) for t in n.targets)):
+                    for t in n.targets:
+                        if isinstance(t, ast.Name):
+                            shared.add(t.id)
+
+            def scan(block):
+                for k, st in enumerate(block):
+                    recv, what = None, None
+                    if isinstance(st, ast.Expr) and isinstance(st.value, ast.Call) and isinstance(st.value.func, ast.Attribute) \
+                            and st.value.func.attr in MUTATORS and shared_expr(st.value.func.value):
+                        recv, what = text(st.value.func.value), st.value.func.attr
+                    elif isinstance(st, ast.Assign) and isinstance(st.value, ast.Call) and isinstance(st.value.func, ast.Attribute) \
+                            and st.value.func.attr in ('pop', 'popitem') and shared_expr(st.value.func.value):
+                        recv, what = text(st.value.func.value), st.value.func.attr
+                    elif isinstance(st, ast.Delete) and any(isinstance(t, ast.Subscript) and shared_expr(t.value) for t in st.targets):
+                        recv, what = text(st.targets[0]), 'del'
+                    if recv is not None and not (k > 0 and is_yield(block[k - 1])):
+                        out.append({'file': fname, 'line': st.lineno, 'function': fn.name, 'receiver': recv,
+                                    'op': what, 'code': text(st)[:120]})
+                    for fld in ('body', 'orelse', 'finalbody'):
+                        sub = getattr(st, fld, None)
+                        if isinstance(sub, list) and sub and isinstance(sub[0], ast.stmt):
+                            scan(sub)
+                    for h in getattr(st, 'handlers', []) or []:
+                        scan(h.body)
+            scan(fn.body)
+    return out
 
 
 # ---------------------------------------------------------------------------
@@ -454,6 +574,84 @@ def stress_once(sc, switch):
     return {'outcomes': outs}
 
 
+# ---------------------------------------------------------------------------
+# hook-free search: a reloading EnvWizard thread || plain-instantiate threads, big environment
+ENV_EXPECT_VARS = {'APP_HOST': 'example.org', 'APP_PORT': '8080', 'app_debug': 'true'}
+
+
+def _env_setup(n_fill):
+    for i in range(n_fill):
+        os.environ['FILLER_VARIABLE_NUMBER_%d' % i] = 'x' * 20
+    os.environ.update(ENV_EXPECT_VARS)
+    from dataclass_wizard import EnvWizard
+    return type('Settings', (EnvWizard,), {'__annotations__': {'app_host': str, 'app_port': int, 'app_debug': bool}})
+
+
+def _env_call(cls, reload):
+    try:
+        o = cls(_reload=True) if reload else cls()
+        return {'ok': canon(o.dict())}
+    except BaseException as e:  # noqa
+        d = err_info(e)
+        d.pop('msg', None); d.pop('renders', None)
+        return d
+
+
+def env_reference(p):
+    """outcomes of the calls made one after the other, in several orders (own pristine process each)"""
+    cls = _env_setup(p['fillers'])
+    return {'outcomes': [_env_call(cls, r) for r in p['order']]}
+
+
+def stress_env_once(p):
+    """thread R: `reloads` x Settings(_reload=True); `workers` threads: Settings() in a loop.  Cold start:
+    nothing of the library's env state exists when the threads start."""
+    cls = _env_setup(p['fillers'])
+    expected = p['expected']
+    sys.setswitchinterval(p.get('switch', 1e-6))
+    bad, stop = [], threading.Event()
+    done = {'reloads': 0, 'calls': 0}
+    deadline = time.monotonic() + p.get('max_seconds', 20.0)
+
+    def check(name, k, o):
+        done['calls'] += 1
+        if o != expected:
+            bad.append({'thread': name, 'call': k, 'round': done['reloads'], 'outcome': o})
+
+    def reloader():
+        for k in range(p['reloads']):
+            if time.monotonic() > deadline or bad:
+                break
+            check('R', k, _env_call(cls, True))
+            done['reloads'] += 1
+        stop.set()
+
+    def worker(name):
+        k = 0
+        while not stop.is_set() and not bad:
+            check(name, k, _env_call(cls, False))
+            k += 1
+    ths = [threading.Thread(target=reloader)] + [threading.Thread(target=worker, args=('W%d' % (i + 1),))
+                                                  for i in range(p['workers'])]
+    for t in ths:
+        t.start()
+    for t in ths:
+        t.join()
+    return {'bad': bad[:5], 'n_bad': len(bad), 'reloads': done['reloads'], 'calls': done['calls']}
+
+
+def stress_env(p):
+    refs = [in_child(env_reference, dict(p, order=o)) for o in ([False, True, False, True], [True, False, False, True])]
+    outs = [o for r in refs for o in r.get('outcomes', [])]
+    if not outs or any(o != outs[0] for o in outs) or 'ok' not in outs[0]:
+        return {'reference_error': refs}
+    q = dict(p, expected=outs[0])
+    import concurrent.futures as cf
+    with cf.ThreadPoolExecutor(max_workers=p.get('parallel', 4)) as ex:
+        runs = list(ex.map(lambda i: in_child(stress_env_once, q), range(p['processes'])))
+    return {'expected': outs[0], 'runs': runs}
+
+
 def handler(p):
     op = p['op']
     if op == 'probe':
@@ -463,6 +661,10 @@ def handler(p):
         except Exception as e:
             out['fixes'] = {}
             out['fixes_error'] = '%s: %s' % (type(e).__name__, e)
+        try:
+            out['inplace_sites'] = inplace_sites()
+        except Exception as e:
+            out['inplace_sites'] = [{'error': '%s: %s' % (type(e).__name__, e)}]
         return out
     preimport()
     if op == 'explore':
@@ -475,6 +677,8 @@ def handler(p):
         return out
     if op == 'seq':
         return {'sequential': sequential_outcomes(p['scenario'])}
+    if op == 'stress_env':
+        return stress_env(p)
     if op == 'stress':
         runs = [in_child(stress_once, p['scenario'], p.get('switch', 1e-6)) for _ in range(p.get('iters', 50))]
         return {'runs': runs, 'sequential': sequential_outcomes(p['scenario'])}
